@@ -606,6 +606,15 @@ def tamper_matrix() -> list[dict]:
                         fu = [dict(x, ro=True) if x["op"] in ("Check", "Status") and len(cases) % 2 else x for x in fu]
                         cases.append({"init": full, "ops": [{"op": "Tamper", "s": s, "o": o, "pat": pat}] + fu,
                                       "kind": "tamper-matrix", "state": state})
+        # ... stores of the legacy text-normalising algorithm: the tamper patterns that touch line ends
+        for o in FILES:
+            for pat in ("append_cr", "append", "same_len"):
+                for state in ("noop", "warm"):
+                    for useed in (0, 1, 2):
+                        for fu in ([{"op": "Check", "s": s, "o": o}],
+                                   [{"op": "Status", "s": s, "ids": [o], "shallow": True, "idx": False}, {"op": "Check", "s": s, "o": o}]):
+                            cases.append({"init": full, "ops": [{"op": "Tamper", "s": s, "o": o, "pat": pat}] + fu,
+                                          "kind": "tamper-legacy", "state": state, "alg": "md5-dos2unix", "useed": useed})
         # ... and a directory object edited so that it still parses (trailing white space), met by the queries that
         # read it: the check, the shallow and the expanding existence query, the source side of an expanding push
         for d in DIRS:
